@@ -74,6 +74,13 @@ pub fn worker(tier: &str, seed: u64, from: u64, to: u64, extra: &[String]) -> Ag
         agg.states.insert(rng::mix2(o.max_arena as u64, h.library.len() as u64));
         for (k, v) in &o.probes {
             agg.probe(k, *v);
+            // the fault kinds of this world: server restart, update aborted half-way (and its repair)
+            if k == "restart-fired" {
+                agg.fault("server-restart", *v);
+            }
+            if k == "aborted-update" {
+                agg.fault("update-aborted-half-way", *v);
+            }
         }
         for v in &o.violations {
             agg.fail(Failure {
